@@ -288,9 +288,15 @@ def validate_level_b(ctx, events, hists):
     def one(gi, mf, se, blocks):
         flat = [r for b in blocks for r in b]
         f = ctx.write_ndjson("levelB_trace_%d.ndjson" % gi, flat)
-        ok, matched, res = ctx.validate_traces("DiskQueueTrace", "DiskQueueTrace.cfg", f, len(flat), len(blocks),
-                                               consts=dict(TraceSizes=set(sizes), MaxFile=mf, SyncEvery=se),
-                                               tag="lvlB%d" % gi, timeout=3000, heap="8g", own_dir="specB%d" % gi)
+        try:
+            ok, matched, res = ctx.validate_traces("DiskQueueTrace", "DiskQueueTrace.cfg", f, len(flat), len(blocks),
+                                                   consts=dict(TraceSizes=set(sizes), MaxFile=mf, SyncEvery=se),
+                                                   tag="lvlB%d" % gi, timeout=3000, heap="8g", own_dir="specB%d" % gi)
+        except Machinery as e:
+            # a hook stream the level-B trace spec cannot even evaluate (an event of an unexpected shape, e.g. a hook
+            # fired from another goroutine than the model's loop) is the strongest form of drift, not a verdict and not
+            # a reason to lose the level-A verdicts of this run
+            ok, matched, res = False, None, dict(violated="trace spec could not be evaluated: %s" % str(e)[:200])
         return gi, mf, se, flat, ok, matched, res
 
     items = sorted(groups.items())
